@@ -14,7 +14,8 @@ RULE = ('cases = random subset and order of (Tags, Error, Volatile, Retry) passe
         'Machine / HierarchicalMachine / LockedMachine / LockedHierarchicalMachine x 1-4 states (flat) or, on 55% of '
         'the hierarchical classes, a state tree of 2-5 states, depth <= 3, initial children, transitions biased to '
         'siblings / parent / child, children reusing the hook name of their parent 40% (nested stream, Volatile '
-        'first in the decorator) x random feature arguments (tags incl. \'accepted\', accepted flag, hook name out '
+        'first in the decorator) x random feature arguments (tags incl. \'accepted\' given as a list, a tuple or - '
+        'a single tag - a bare string, the caller\'s object checked afterwards; accepted flag, hook name out '
         'of 3, custom or default volatile class, retries 0-3 with on_failure recorder, final=True on 35% of the '
         'states independently of accepted / tags / outgoing transitions, 0-2 on_enter / on_exit '
         'recorders) x 1-3 events with condition-free transitions (reflexive 35%, internal 8%, states without outgoing '
@@ -240,6 +241,7 @@ def gen(rng, i, tier):
                 a = rng.randint(0, n)
                 b = min(n, a + rng.choice([0, 1]))
                 s_[kind + '_reg'] = [0] * a + [1] * (b - a) + [2] * (n - b)
+        s_['tagform'] = rng.choice([0, 0, 1, 2, 2])     # tags given as list / tuple / (a single tag) bare string
         s_['fin'] = [int(rng.random() < 0.35) for _ in range(3)]
         s_['tmo'] = [int(rng.random() < 0.3) for _ in range(3)]
     decor = [list(feats)]
@@ -465,6 +467,8 @@ def _run_machine(tr, case, decorated):
         reg = s.get(kind + '_reg') or [0] * len(s[kind])
         return [c for c, way in zip(s[kind], reg) if way == 0]
 
+    given_tags = {}       # the caller's tags objects: must come back unchanged
+
     def sdef(s):
         d = dict(name='s%d' % s['id'], on_enter=[rec(1, c) for c in given(s, 'enter')],
                  on_exit=[rec(0, c) for c in given(s, 'exit')])
@@ -480,7 +484,11 @@ def _run_machine(tr, case, decorated):
         if decorated:
             g_tags, g_acc, g_hook, g_retry = s['given']
             if g_tags:
-                d['tags'] = [tag_name(t) for t in s['tags']]
+                names = [tag_name(t) for t in s['tags']]
+                form = s.get('tagform', 0)
+                obj = names[0] if form == 2 and len(names) == 1 else tuple(names) if form == 1 else names
+                given_tags[s['id']] = (obj, list(names), type(obj))
+                d['tags'] = obj
             if g_acc:
                 d['accepted'] = s['accepted']
             if g_hook:
@@ -529,7 +537,9 @@ def _run_machine(tr, case, decorated):
                     row.append([bool(getattr(st, 'is_' + tag_name(t)))])
                 except AttributeError:
                     row.append([])
-            table.append(row)
+            obj, names, typ = given_tags.get(s['id'], ([], [], list))
+            same = type(obj) is typ and (obj == names[0] if typ is str else list(obj) == names)
+            table.append(row + [[bool(same)]])
 
     reg = []
     for s in build_order(case):
@@ -739,6 +749,8 @@ def check_reentrant(case, obs):
             exp = [t in _eff_tags(case, s)] if h['tags'] else []
             if ans != exp:
                 bad.append(('C19_tags', 'state %d tag %d: %r' % (s['id'], t, ans), {}))
+        if len(row) > len(TAGS) and row[len(TAGS)] != [True]:
+            bad.append(('C19_tags', 'state %d: the tags object given by the caller was changed' % s['id'], {}))
     for k, ((items, res, snap), (xi, xr, xs)) in enumerate(zip(steps, py_rrun(case))):
         if items != xi or res != xr or [st for st, _ in snap] != xs:
             bad.append(('C19_retry_reentrant', 'call %d: %r %r %r expected %r %r %r' % (
@@ -773,6 +785,8 @@ def check_clauses(case, obs, info=None):
             exp = [t in _eff_tags(case, s)] if h['tags'] else []
             if ans != exp:
                 bad.append(('C19_tags', 'state %d tag %d: %r' % (s['id'], t, ans), {}))
+        if len(row) > len(TAGS) and row[len(TAGS)] != [True]:
+            bad.append(('C19_tags', 'state %d: the tags object given by the caller was changed' % s['id'], {}))
     cur = [case['init']] * nm
     pre = [dict((hh, o) for m, hh, o in case.get('pre', []) if m == j) for j in range(nm)]
     cls = [dict((hh, o) for m, hh, o in case.get('clsattr', []) if m == j) for j in range(nm)]
@@ -970,7 +984,10 @@ def canon(case, obs):
         steps.append([items, res, sn])
     # the model prints which callback kinds the decorated / undecorated state class has (FeaturesKinds)
     reg = expected_reg(case, obs[1][6]) if len(obs[1]) == 7 else obs[1][4] if len(obs[1]) == 5 else None
-    return [obs[0], [0, obs[1][1], steps, obs[1][3]] + ([reg] if reg is not None else [])]
+    table = obs[1][1]
+    if len(obs[1]) == 7:          # the model's rows: is_<tag> answers; the caller's tags object is never touched
+        table = [row + [[1]] for row in table]
+    return [obs[0], [0, table, steps, obs[1][3]] + ([reg] if reg is not None else [])]
 
 
 def extra_checks(tier, seed):
